@@ -128,6 +128,7 @@ pub fn schedule_part(run: &Run) -> SchedOut {
             run.add(&format!("sched_problems_reaching_write_lock_at_line_{l}"), 1);
         }
     });
+    let wide = wide_part(run);
     let g = totals.into_inner().unwrap();
     SchedOut {
         executions: g.0,
@@ -136,6 +137,111 @@ pub fn schedule_part(run: &Run) -> SchedOut {
                      "mode1": {"rule": "preemption bound 1 (thorough: 2 for <= 2 crossings), hand-overs at task ends free", "executions": run.get("sched_mode1_executions"), "problems_complete_below_bound": run.get("sched_mode1_problems_complete_below_bound")}, "executions": g.0,
                      "lock_points_passed": g.1, "scheduled_parallel_calls": g.2, "problems_where_bound_cut": g.4, "problems_in_which_two_workers_take_a_write_lock": run.get("sched_problems_with_two_writers"), "execution_cap_per_problem": exec_cap,
                      "prefixes_not_replayable_because_of_hash_order": run.get("sched_prefixes_not_replayable"),
+                     "wide_calls": wide,
                      "note": "KhHomology::new is not a deterministic function of the schedule (hash-seeded orders); a DFS prefix that cannot be followed is abandoned and the execution that happened is judged instead, so the enumeration below the bound is not guaranteed complete"}),
     }
+}
+
+/// Wide parallel calls.  With the default policies the tangle complex is simplified after every
+/// crossing, so `connect_edges` never sees more than a dozen (left vertex, right vertex) pairs on
+/// the small diagrams above; code that only forks above a size threshold (rayon's `with_min_len`,
+/// chunking, "parallel only if n > ...") would never fork there.  Here the builder runs with
+/// `auto_deloop = auto_elim = false`: after k crossings the complex has 2^k vertices and the next
+/// `connect_edges` call has 2^(k+1) pairs (64 for the 6th crossing).  Every hand-over counts as a
+/// deviation; all schedules with at most 1 (thorough 2) deviations.
+fn wide_part(run: &Run) -> Value {
+    use yui_kh::kh::internal::v2::builder::TngComplexBuilder;
+    use yui_link::Crossing;
+    let th = run.thorough();
+    // closures of 3-braids with 8 letters: an alternating word, a torus-like word, mixed ones
+    let words: Vec<Vec<i32>> = if th {
+        vec![vec![1, -2, 1, -2, 1, -2, 1], vec![1, 2, 1, 2, 1, 2, 1], vec![1, 1, -2, 1, -2, -2, 1], vec![1, 2, -1, 2, 1, -2, 1], vec![1, -2, 1, -2, 1, -2, 1, -2]]
+    } else {
+        vec![vec![1, -2, 1, -2, 1, -2, 1], vec![1, 2, 1, 2, 1, 2, 1]]
+    };
+    let bound = if th { 2 } else { 1 };
+    let out = std::sync::Mutex::new(vec![]);
+    run.par_for(words.len(), |wi| {
+        let w = &words[wi];
+        let d = vcore::reflink::braid_closure(3, w).expect("closure");
+        let link = to_link(&d);
+        let (h, t) = if wi % 2 == 0 { (0i64, 0i64) } else { (1, 0) };
+        let reference = khovanov::<Z>(&d, &z(h), &z(t), None).total;
+        let key = format!("khsched-wide:{w:?}:h={h},t={t}").replace(' ', "");
+        let cfg = Config { workers: 2, choose_items: false, max_decisions: 2_000_000, min_items: 2, count_task_switches: true };
+        let mut max_items = 0usize;
+        let mut two_writers = false;
+        let mut judged_ok: BTreeSet<String> = BTreeSet::new();
+        let st = sched::explore(
+            &cfg,
+            Some(bound),
+            if th { 2_000_000 } else { 50_000 },
+            || {
+                let mut b = TngComplexBuilder::<i64>::new(&link, &h, &t, None);
+                b.auto_deloop = false;
+                b.auto_elim = false;
+                b.set_elements(vec![]);
+                b.set_crossings(link.data().iter().cloned().collect::<Vec<Crossing>>());
+                b.process_all();
+                b
+            },
+            |r, tr| {
+                // only the construction (the wide `connect_edges` calls) runs under the scheduler;
+                // delooping the 64-vertex complex and the homology computation follow sequentially
+                // (their parallel calls are covered on the small diagrams: > 50 000 tasks here)
+                // (and only once per distinct complex: `desc_d` lists every vertex and every edge
+                // cobordism, so an execution whose complex prints like one already judged is skipped)
+                let r = r.map(|mut b| {
+                    let desc = b.complex().desc_d();
+                    if judged_ok.contains(&desc) {
+                        return Ok(None);
+                    }
+                    vcore::catch(move || {
+                        b.finalize();
+                        let c = b.into_kh_complex();
+                        Some((desc, total_table(&KhHomology::from(&c))))
+                    })
+                });
+                max_items = max_items.max(tr.max_items);
+                if !two_writers {
+                    let ws: BTreeSet<u8> = tr.labels.iter().filter(|l| l.1 == "rwlock.write").map(|l| l.0).collect();
+                    two_writers = ws.len() >= 2;
+                }
+                if tr.diverged.is_some() {
+                    run.add("sched_prefixes_not_replayable", 1);
+                }
+                let detail = || json!({"pd": d.pd(), "h": h, "t": t, "schedule": tr.choices(), "deviations": tr.preemptions(), "builder": "auto_deloop = auto_elim = false"});
+                match (&tr.abort, r) {
+                    (Some(ab), _) => {
+                        run.fail(&key, &format!("aborted under schedule: {ab:?}"), detail());
+                        false
+                    }
+                    (None, Err(_)) => {
+                        run.fail(&key, "panicked outside a parallel call", detail());
+                        false
+                    }
+                    (None, Ok(Err(p))) => {
+                        run.fail(&key, &format!("the complex built under this schedule cannot be finished: {p}"), detail());
+                        false
+                    }
+                    (None, Ok(Ok(None))) => true,
+                    (None, Ok(Ok(Some((desc, tab))))) => {
+                        if let Some(diff) = diff_tables(&tab, &reference) {
+                            run.fail(&key, &format!("homology under this schedule differs from the cube: {diff}"), detail());
+                            return false;
+                        }
+                        judged_ok.insert(desc);
+                        true
+                    }
+                }
+            },
+        );
+        if !st.complete && run.nviolations() == 0 {
+            run.cap("part 3 (wide calls): execution cap hit");
+        }
+        out.lock().unwrap().push(json!({"braid_word": w, "h": h, "t": t, "largest_parallel_call": max_items, "executions": st.executions, "complete_below_bound": st.complete,
+                                        "two_workers_take_the_write_lock": two_writers, "distinct_complexes_judged": judged_ok.len(), "lock_points_passed": st.points}));
+    });
+    let v = out.into_inner().unwrap();
+    json!({"rule": "TngComplexBuilder with auto_deloop = auto_elim = false on closures of 3-braids with 7 letters (thorough: also 8; 2^k vertices after k crossings); deviations = preemptions + hand-overs at task ends", "deviation_bound": bound, "problems": v})
 }
